@@ -470,6 +470,25 @@ def search_chain_shape(ctx, rule, parts=("order", "score", "filter", "comparator
         else:
             ctx.fail(rule, key, sb.where(), "results are no longer built as {id: hit.id, title: highlight(&hit, dividers)}",
                      {"witness": "hit ids do not belong to the shown titles"})
+    # the collected list is what is returned: nothing drops, reorders or merges results after the cut
+    if "complete" in parts or "result" in parts or "order" in parts:
+        ret = S.strip_sites(S.strip_refs(sy.local(0)))
+        key = "result-unmodified"
+        touched = None
+        for bi, t in sb.calls():
+            m = (t.get("cn") or "").rsplit("::", 1)[-1]
+            if not t["args"] or m not in ("dedup", "dedup_by", "dedup_by_key", "retain", "retain_mut", "truncate", "remove", "swap_remove", "pop",
+                                          "drain", "clear", "insert", "sort", "sort_by", "sort_by_key", "sort_unstable", "sort_unstable_by",
+                                          "sort_unstable_by_key", "reverse", "swap", "rotate_left", "rotate_right", "split_off", "resize"):
+                continue
+            r = S.strip_sites(S.strip_refs(sy.operand(t["args"][0])))
+            if r == ret and not sb.blocks[bi]["cleanup"]:
+                touched = (bi, t, m)
+        if touched:
+            ctx.fail(rule, key, where(sb, touched[0], touched[1]), "Store::search changes the collected result list with `%s` before returning it"
+                     % touched[2], {"witness": "two records with the same title: only one of them is returned although each is a hit on its own"})
+        else:
+            ctx.ok(rule, key, sb.where(), "the collected result list is returned as it is")
     if "branch" not in parts:
         return
     # branch: index iff query has words
